@@ -226,6 +226,20 @@ def run(ctx, rep):
                 if f is None:
                     continue
                 arr = be.call_fn(f, [cinv])
+                if not isinstance(arr, Arr):
+                    # a branch on a compile-time constant (`if cfg!(target_endian = "big")`) joins two values in the
+                    # all-paths tree; the path summaries keep only the branch the constant selects
+                    try:
+                        from mirq.paths import Paths as _P, Unsupported as _U
+                        if not hasattr(prog, "_c12_paths"):
+                            prog._c12_paths = _P(prog, inline=lambda g: prog.is_new(g))
+                        ss_ = prog._c12_paths.of(f)
+                        if len(ss_) == 1 and not ss_[0].effects:
+                            arr2 = be.eval(ss_[0].ret, {1: cinv}, f)
+                            if isinstance(arr2, Arr):
+                                arr = arr2
+                    except Exception:
+                        pass
                 ok = isinstance(arr, Arr) and len(arr.items) == nbytes and all(isinstance(x, BV) for x in arr.items)
                 if ok:
                     for i_, by in enumerate(arr.items):
@@ -279,4 +293,20 @@ def binary(prog, rep, be, cty, rty):
                     sb = storage_bits(v)
                     tt[{0: "Off", 1: "On"}.get(lit[0])] = sb.as_int() if sb else None
         ok = tt == {"Off": 0, "On": 1}
+    if not ok:
+        # any other spelling (`RawU1::new(u8::from(color.is_on()))`): the path summaries with the colour's own helpers
+        # inlined, one path per variant, the value evaluated in the bit domain
+        try:
+            tt = {}
+            for sm in Paths(prog, inline=lambda g: prog.is_new(g) or "BinaryColor" in g.path).of(to_raw):
+                vs = [fc[2] for fc in sm.facts if fc[0] == "variant" and strip_refs(fc[1])[0] == "param" and len(fc[2]) == 1]
+                if len(vs) != 1 or len(sm.facts) != 1:
+                    tt["?"] = None
+                    continue
+                v = be.eval(sm.ret, {}, to_raw)
+                sb = storage_bits(v)
+                tt[vs[0][0]] = sb.as_int() if sb else None
+            ok = tt == {"Off": 0, "On": 1}
+        except Unsupported:
+            pass
     rep.check(ok, "O2", "BinaryColor:to-raw", "Into<RawU1> must map Off to 0 and On to 1; found %s" % show(ro, maxd=4), at=to_raw.span, fn=to_raw.path)
